@@ -189,7 +189,11 @@ fn main() {
             check_canon::<FF<3>>(&run, "F3", name, d, &FF::<3>::new(1), "1", true, reduced);
         }
         let moves: Vec<(String, Diagram)> = if name.starts_with("planar") {
-            pd_moves(d, d.n <= 2 || th)
+            let mut m = pd_moves(d, d.n <= 2 || th);
+            if d.n <= 2 || th {
+                m.extend(pd_r2_moves(d));
+            }
+            m
         } else {
             vec![("reverse-all".to_string(), d.reverse_all())]
         };
